@@ -17,8 +17,11 @@ from .c01 import check_rebuild
 EXPLANATION = (
     "Static clause of C04 decided on MIR: every return path (Ok or Err) of every bridge function that merges staged writes "
     "re-canonicalises or proves the union-find did not grow; only rebuilders and obligated functions may call the merging / "
-    "rebuilding Database operations; crate egglog has no direct access to them. Not decided: key uniqueness, container "
-    "hash-consing and serialisation agreement (data)."
+    "rebuilding Database operations; crate egglog has no direct access to them; and the structural half of 'at most one live row "
+    "per key is visible': a key gets a hash entry only after a probe miss (R-INSERT-AFTER-PROBE), every superseded row is marked "
+    "stale AND counted (R-STALE-COUNT / R-STALE-COUNTED — observers skip the stale check when the counter reads 0), observers read raw "
+    "storage only under stale_rows == 0 (R-RAW-ROWS). Not decided: key uniqueness over all histories, container hash-consing and "
+    "serialisation agreement (data)."
 )
 
 MUTATORS = ("merge_all", "run_rule_set", "merge_table", "merge_simple", "apply_rebuild", "refresh_rows_for_values",
@@ -124,3 +127,9 @@ def run(chk, prog, tier):
     check_who_merges(chk, prog, model)
     check_canon_reads(chk, prog)
     check_merge_fixpoint(chk, prog)
+    # one live row per key, as seen by every observer
+    from . import c05, c16
+    c05.check_insert_after_probe(chk, prog)
+    c16.check_stale_count(chk, prog)
+    c16.check_stale_counted(chk, prog)
+    c16.check_raw_rows(chk, prog)
